@@ -27,8 +27,10 @@ ASSUMPTIONS = [
     "`last object` / `first object` of the statement are read as m.stack().offset.max()/min(), which range over notes, "
     "tempo points and SVs (reamberPy's `objs`); a tempo point after the last note therefore counts up to the last "
     "tempo/SV point",
-    "pandas sort_values is modelled as a stable sort; where its (unstable) tie order matters the case is outside the "
-    "proved domain (finding D42)",
+    "pandas sort_values(kind='stable') is modelled as a stable insertion sort (the `kind` arguments are read by the "
+    "translator; before the fix of D28 the default unstable sort decided ties at the last offset)",
+    "the hypothesis `no SV before the first stacked offset` of scroll_speed_spec holds by construction (the first "
+    "stacked offset is the minimum over notes, tempo points and SVs)",
     "coinciding SVs: the specification accepts any of them, the model takes the last in row order as the code does",
 ]
 TRUSTED_EXTRA = ["pandas groupby/merge/ffill/bfill/drop_duplicates/idxmax are modelled as list operations (Model/Analysis.lean)"]
@@ -344,9 +346,10 @@ def _c(claim, game, bpms, notes, svs=(), holds=(), override=None, **kw):
                 override=None if override is None else R(override), **kw)
 
 
-def d42_witness():
+def d28_witness():
     """66 tempo points in a fixed shuffled row order, the last note on the last tempo point (whose bpm differs
-    from the one before): on this numpy (AVX-512 argsort) the marker row is ordered before the tempo row"""
+    from the one before): with the default (unstable) sort this numpy (AVX-512 argsort) orders the marker row
+    before the tempo row - the witness of the repaired finding D28"""
     import random
     bp = [(250 * j, [100, 150, 200][j % 3]) for j in range(66)]
     random.Random(3).shuffle(bp)
@@ -371,7 +374,7 @@ def corpus():
     c.append(_c("normalize", "quaver", [(0, 100), (1000, 37.5), (3000, 480)], [10, 4000], override=240))
     c.append(_c("speed", "sm", [(0, 100), (1000, 200)], [0, 1000]))     # tie at the last offset, 4 rows (stable regime)
     c.append(_c("speed", "osu", [(0, 100), (1000, 200)], [500], holds=[(700, 5000)], svs=[(1000, 2), (800, 0.5)]))
-    c.append(d42_witness())
+    c.append(d28_witness())
     return c
 
 
@@ -550,7 +553,7 @@ def run_speed(case, drv):
                   override=jc["override"])
     refs, near_tie, exact_refs = admissible_refs(drv, jc, case)
     d = domain(case, jc, drv)
-    in_dom = (d["tempo_ok"] and d["last_ok"] and not d["tie_at_max"]
+    in_dom = (d["tempo_ok"] and d["last_ok"]
               and not (case.get("override") is not None and F(case["override"]) == 0))
     ok, agree, maxdev, detail, kf = True, stack_bounds_agree(m, jc), 0.0, {}, None
     if d["tie_at_max"]:
@@ -569,13 +572,13 @@ def run_speed(case, drv):
                 ok, maxdev = True, md
                 break
         if not ok and d["tie_at_max"]:
-            # finding D42 and nothing else: the only wrong rows sit at the last offset next to a right one
+            # the shape of the repaired finding D28 (tagged only; a fixed finding suppresses nothing): the only
+            # wrong rows sit at the last offset next to a right one
             for ref in refs:
                 bok, passes, md, _ = _speed_eval(drv, jc, ref, rows)
                 bad = [i for i, p in enumerate(passes) if not p]
                 good_at_max = [i for i, p in enumerate(passes) if p and rows[i][0] == omax]
                 if bok and bad and all(rows[i][0] == omax for i in bad) and good_at_max:
-                    kf = "D42"
                     tags.append("spurious-row-at-last-offset")
                     break
         if "ok" not in mo:
